@@ -9,6 +9,7 @@ redirect arrives on EXEC"). The model is tied to the code by the `cluster` corre
 import Rv.Model.ClusterMulti
 import Rv.Lemmas.ClusterMulti
 import Rv.Lemmas.ClusterMultiInv
+import Rv.Lemmas.ClusterMultiCover
 namespace Rv.C20
 open Rv Rv.Topology Rv.ClusterRoute Rv.ClusterMulti Rv.ClusterMultiL
 
@@ -111,6 +112,26 @@ theorem initial_groups_ok (multi : List Cmd) (ds : List Conn) :
     simp only [Option.map_some, Option.some.injEq] at hj1
     rw [← hj1]
     simp [hmj]
+
+/-- …and every position does get a result: starting from the sub-batches `_pickMulti` built (one destination
+    per command), after the round loop (at least one round) `results[i]` is set for every `i < n`, whatever
+    was redirected or retried. Together with `results_positional`: `results[i]` is a reply to command `i`. -/
+theorem results_total (o : Opt) (cache hasInit : Bool) (multi : List Cmd) (ds : List Conn) (hlen : ds.length = multi.length)
+    (fuel : Nat) (c : Client) (w : World) (i : Nat) (hi : i < multi.length) :
+    ∃ r, (rounds o cache hasInit (fuel + 1) (groupBy ((enumFrom 0 multi).zip ds) [])
+            { c := c, results := multi.map fun _ => none } w 1 0).1.results[i]? = some (some r) := by
+  have hg := initial_groups_ok multi ds
+  have h0 : ResOK multi w.replies (multi.map fun _ => (none : Option Reply)) := by
+    refine ⟨by simp, fun k r' hk => ?_⟩
+    simp only [List.getElem?_map] at hk
+    cases hm : multi[k]? <;> simp [hm] at hk
+  have hm : multi[i]? = some multi[i] := List.getElem?_eq_getElem hi
+  have hd : ds[i]? = some (ds[i]'(by omega)) := List.getElem?_eq_getElem (by omega)
+  have hmem := (cindexes_partition multi ds i multi[i] (ds[i]'(by omega)) hm hd (ds[i]'(by omega))).mpr rfl
+  rcases pget_empty_or_mem (ds[i]'(by omega)) (groupBy ((enumFrom 0 multi).zip ds) []) with h | ⟨x, hx, hxe⟩
+  · rw [h] at hmem; cases hmem
+  · rw [← hxe] at hmem
+    exact rounds_total multi o cache hasInit fuel _ _ w 1 0 hg h0 x hx _ hmem
 
 /-- un-interleaving: dropping the ASKING items from what `askingMulti` sends leaves the sub-batch's commands
     in order, so the i-th kept reply belongs to the i-th queued command -/
